@@ -53,7 +53,7 @@ def ob_capture_set(r, tier, seed, depth, forms, inner=('EVar', 'ELet', 'EBinary'
     SC = [a for a in tt.by_name['Scope'] if a.crate == 'compiler' and 'lift' in '::'.join(a.path)][0]
     SE = [a for a in tt.by_name['ScopeEntry'] if a.crate == 'compiler'][0]
     BOP = tt.find_adt(['common_defs', 'BinaryOp'], 'common_defs')
-    r.bounds = 'closure bodies of depth <= %d: top constructor in %s, below it ' + str(list(inner)) + ', leaves variables; variable and let names in %s; enclosing scope = {x, y} (z is not in scope: a global or builtin)' % (depth, forms, list(NAMES))
+    r.bounds = 'closure bodies of depth <= %d: top constructor in %s, below it %s, leaves variables; variable and let names in %s; enclosing scope = {x, y} (z is not in scope: a global or builtin)' % (depth, forms, list(inner), list(names))
     r.assumptions = ['oracle: captured = the free variables of the body (reference definition: a let binds its name in its body only) that the enclosing scope defines, each once']
     int_ty = Agg(TY.key, TY.vindex('TInt32'), [])
     class S2(Spec):
